@@ -438,6 +438,26 @@ def instance_shadow_updates(ctx, funcs, rule='GLOBALS'):
         def unmangle(a):
             pre = f"_{ci.name}"
             return a[len(pre):] if a.startswith(pre + '__') else a
+        # names that denote the RUNTIME class of the object (type(self), self.__class__): an
+        # augmented assignment through them re-binds the attribute on a subclass, which from then on
+        # has a counter of its own
+        dyn = {'type(self)', 'self.__class__'}
+        for y in walk_local(fi.node):
+            if isinstance(y, ast.Assign) and len(y.targets) == 1 and isinstance(y.targets[0], ast.Name) \
+                    and norm(y.value) in ('type(self)', 'self.__class__'):
+                dyn.add(y.targets[0].id)
+        for x in walk_local(fi.node):
+            if isinstance(x, (ast.AugAssign, ast.Assign)):
+                tg = x.target if isinstance(x, ast.AugAssign) else x.targets[0]
+                if isinstance(tg, ast.Attribute) and norm(tg.value) in dyn and unmangle(tg.attr) in class_level \
+                        and fi.node.name != '__init_subclass__':
+                    n += 1
+                    ctx.violation(rule, f"{fi.qualname}: `{norm(x)[:40]}` updates the counter of class {ci.name}",
+                                  f"`{norm(x)}` goes through the runtime class of the object: for an instance of a subclass the "
+                                  f"first update creates `{unmangle(tg.attr)}` on the SUBCLASS, which then counts on its own - two "
+                                  f"objects get the same value (uids repeat, the 'i' sort key no longer restores creation order "
+                                  f"in a list that mixes {ci.name} with a subclass)",
+                                  key=f"{rule}|{fi.qualname}|subclass-counter|{unmangle(tg.attr)}", where=common.loc(fi, x))
         for x in walk_local(fi.node):
             if isinstance(x, ast.AugAssign) and isinstance(x.target, ast.Attribute) and norm(x.target.value) == 'self':
                 name = unmangle(x.target.attr)
